@@ -49,22 +49,32 @@ func (e *Engine) Assumptions() []string {
 }
 
 type optVariant struct {
-	name string
-	o    lua.Options
+	name  string
+	o     lua.Options
+	entry int // Go-side protected entry point style (hostapi.Host.Entry)
+	junk  int
 }
 
 func drawOptions(t *core.Tape) optVariant {
+	ov := drawLuaOptions(t)
+	ov.entry = t.Choose(6)
+	ov.junk = []int{0, 0, 1, 3}[t.Choose(4)]
+	ov.name = fmt.Sprintf("%s/entry%d/junk%d", ov.name, ov.entry, ov.junk)
+	return ov
+}
+
+func drawLuaOptions(t *core.Tape) optVariant {
 	switch t.Choose(6) {
 	case 1:
-		return optVariant{"autogrow-stack", lua.Options{CallStackSize: 120, MinimizeStackMemory: true, RegistrySize: 1024, RegistryMaxSize: 1024 * 80, RegistryGrowStep: 32}}
+		return optVariant{name: "autogrow-stack", o: lua.Options{CallStackSize: 120, MinimizeStackMemory: true, RegistrySize: 1024, RegistryMaxSize: 1024 * 80, RegistryGrowStep: 32}}
 	case 2:
-		return optVariant{"tiny-growing-registry", lua.Options{CallStackSize: 100, RegistrySize: 300, RegistryMaxSize: 1024 * 80, RegistryGrowStep: 7}}
+		return optVariant{name: "tiny-growing-registry", o: lua.Options{CallStackSize: 100, RegistrySize: 300, RegistryMaxSize: 1024 * 80, RegistryGrowStep: 7}}
 	case 3:
-		return optVariant{"defaults", lua.Options{CallStackSize: lua.CallStackSize, RegistrySize: lua.RegistrySize}}
+		return optVariant{name: "defaults", o: lua.Options{CallStackSize: lua.CallStackSize, RegistrySize: lua.RegistrySize}}
 	case 4:
-		return optVariant{"autogrow+tinyreg", lua.Options{CallStackSize: 64, MinimizeStackMemory: true, RegistrySize: 300, RegistryMaxSize: 1024 * 80, RegistryGrowStep: 33}}
+		return optVariant{name: "autogrow+tinyreg", o: lua.Options{CallStackSize: 64, MinimizeStackMemory: true, RegistrySize: 300, RegistryMaxSize: 1024 * 80, RegistryGrowStep: 33}}
 	}
-	return optVariant{"small", hostapi.SmallOptions()}
+	return optVariant{name: "small", o: hostapi.SmallOptions()}
 }
 
 type runOut struct {
@@ -77,6 +87,7 @@ type runOut struct {
 
 func execVM(proto *lua.FunctionProto, ov optVariant, kind int, at int64, maxSteps int64, withCtx bool) *runOut {
 	h := hostapi.NewHost(hostapi.Options{LuaOptions: ov.o, Kind: kind, At: at, MaxSteps: maxSteps, WithContext: withCtx})
+	h.Entry, h.EntryJunk = ov.entry, ov.junk
 	out := h.RunProto(proto)
 	r := &runOut{trace: h.Trace, out: out, h: h, viol: h.Violations}
 	r.hash = model.HashTrace(h.Trace, out.TopError)
@@ -176,7 +187,8 @@ func (e *Engine) Run(t *core.Tape, cfg *core.Config, st *core.Stats) *core.Viola
 	for f, n := range prog.Features {
 		st.ProbeN("feature_"+f, n)
 	}
-	st.Probe("options_" + ov.name)
+	st.Probe("options_" + strings.SplitN(ov.name, "/", 2)[0])
+	st.Probe(fmt.Sprintf("go_entry_style_%d", ov.entry))
 
 	// fault-free run, no context
 	const hardCap = 60000
@@ -208,8 +220,8 @@ func (e *Engine) Run(t *core.Tape, cfg *core.Config, st *core.Stats) *core.Viola
 	S := r0.h.Steps
 	H := r0.h.HostCalls
 	st.D(r0.hash)
-	if S > 6000 {
-		st.Discarded++
+	if S > 6000 || (!cfg.Thorough && S > 2500) {
+		st.Discarded++ // keeps the per-run cost (one model run per micro-step) bounded
 		return nil
 	}
 	if H != free.HostSteps {
